@@ -32,8 +32,10 @@ def st_L(lo=0.1, hi=100.0, extreme=False):
 
 
 def coef(lo=-2.0, hi=2.0):
+    """coefficient in [lo, hi]; magnitudes below 1e-6 are flushed to exactly 0 (subnormal / tiny values only
+    test the rounding of the comparison itself)"""
     return st.floats(lo, hi, allow_nan=False, allow_infinity=False).map(
-        lambda x: float("%.6g" % x)
+        lambda x: float("%.6g" % x) if abs(x) >= 1e-6 else 0.0
     )
 
 
